@@ -68,6 +68,16 @@ let pbytes l = (* byte lists as #hex; falls back to a plain list if some value i
 let popt f = function None -> Buffer.add_string buf "()" | Some x -> Buffer.add_char buf '('; f x; Buffer.add_char buf ')'
 let sp () = Buffer.add_char buf ' '
 
+let perr = function None -> Buffer.add_string buf "()" | Some e ->
+  Buffer.add_string buf (match e with EValue -> "(1)" | EIndex -> "(2)" | EType -> "(3)" | EOverflow -> "(4)" | EUnicode -> "(5)" | ENoEnt -> "(6)" | EOther -> "(7)")
+let peffect = function
+  | WriteFile (p, c) -> Buffer.add_char buf '('; pzs p; sp (); pbytes c; Buffer.add_char buf ')'
+  | MkDir p -> Buffer.add_char buf '('; pzs p; Buffer.add_char buf ')'
+let opt_of f = function L [] -> None | L [x] -> Some (f x) | _ -> failwith "option" 
+let poutcome o = Buffer.add_char buf '('; pz o.o_status; sp (); plist pzs o.o_lines; sp (); plist peffect o.o_effects; sp (); perr o.o_crash; Buffer.add_char buf ')'
+let pair_of f g = function L [a; b] -> (f a, g b) | _ -> failwith "pair"
+let pk7 f = Buffer.add_char buf '('; pbytes f.k_name; sp (); pbytes f.k_ext; sp (); pz f.k_kind; sp (); pz f.k_mode; sp (); plist pbytes f.k_chunks; Buffer.add_char buf ')'
+
 let input_of = function L [st; txt] -> (bool_of st, zs_of txt) | _ -> failwith "input"
 
 let dispatch (cmd : string) (args : sx list) : unit =
@@ -79,6 +89,12 @@ let dispatch (cmd : string) (args : sx list) : unit =
   | "chomp", [l] -> pzs (chomp (zs_of l))
   | "prettier", [inputs] -> plist pzs (prettier_run (list_of input_of inputs))
   | "pretty_spec", [l] -> pzs (pretty_spec false (zs_of l))
+  | "tar_create", [v; fs; arch; srcs] -> poutcome (tar_create (bool_of v) (list_of (pair_of zs_of zs_of) fs) (zs_of arch) (list_of zs_of srcs))
+  | "tar_list", [v; raw] -> poutcome (tar_list (bool_of v) (zs_of raw))
+  | "tar_extract", [v; into; arch; raw] -> poutcome (tar_extract (bool_of v) (opt_of zs_of into) (zs_of arch) (zs_of raw))
+  | "k7_decode", [raw] -> popt (plist pk7) (k7_decode (zs_of raw))
+  | "doc_entry", [src; content] -> pk7 (doc_entry (zs_of src) (zs_of content))
+  | "doc_path", [src] -> pzs (doc_path (zs_of src))
   | _ -> failwith ("unknown command " ^ cmd)
 
 let () =
